@@ -350,6 +350,11 @@ def gen_op(rng, st):
             op['fmt'] = KINDS[kind][1] or rng.choice(['humidity', 'one3d', 'vertical_diffusivity'])
         if how == 'wrongfmt':
             op['fmt'] = rng.choice(['uamiv', 'netcdf', 'ffi1001', 'csv', 'humidity', 'ioapi'])
+        if how in ('explicit', 'wrongfmt') and rng.random() < 0.4:
+            # valid reader keywords (a little-endian open, grid hints, projection)
+            op['kw'] = rng.choice([{'endian': 'little'}, {'endian': 'big'},
+                                   {'rows': 2, 'cols': 3}, {'mode': 'r'},
+                                   {'P_ALP': 30.0, 'GDTYP': 2}, {'encoding': 'latin1'}])
     elif name == 'hfail':
         op = {'op': 'hfail', 'what': rng.choice(['missing', 'missing.uamiv', 'missing.nc',
                                                    'dir']),
@@ -428,7 +433,7 @@ def apply(st, op):
                     h = None
                     pnc.getreader(f['path'])
                 else:
-                    h = pnc.pncopen(f['path'], format=op['fmt'])
+                    h = pnc.pncopen(f['path'], format=op['fmt'], **op.get('kw', {}))
                 if i == 0:
                     notes.append('ok:' + (type(h).__name__ if h is not None else 'reader'))
                 if h is not None and i % 2 == 0:
